@@ -176,7 +176,7 @@ func c17Exec(d c17AppDef, o lsOpts, h []string, pos int, refused string, style i
 		if nontrivial != nil && k+1 == pos && base.St != nil && (len(base.St.ExecPath) > 1 || base.St.SizeIdx > 0) {
 			*nontrivial = true
 		}
-		if o.Mode == "long-lived" && (rb.FlushErr != "" || rb.ExecErr != "" || !rb.Cont) {
+		if strings.HasPrefix(o.Mode, "long-lived") && (rb.FlushErr != "" || rb.ExecErr != "" || !rb.Cont) {
 			break
 		}
 	}
@@ -231,7 +231,8 @@ func c17Run(c *mc.Ctx) {
 		depth = 3
 	}
 	c.Note("valid_history_depth", fmt.Sprint(depth))
-	backends := []lsOpts{{Mode: "long-lived"}, {Mode: "persisted", Backend: "mem"}, {Mode: "persisted", Backend: "fs"}}
+	// long-lived-persister: one engine WITH a persister for the whole session (the engine.Loop arrangement)
+	backends := []lsOpts{{Mode: "long-lived"}, {Mode: "persisted", Backend: "mem"}, {Mode: "persisted", Backend: "fs"}, {Mode: "long-lived-persister", Backend: "mem"}}
 	if c.Mine() {
 		if sig, msg := c17FlushFirst(lsOpts{}); sig != "" {
 			c.Fail(sig, msg, c17Witness{App: "flush-before-exec"})
